@@ -135,9 +135,10 @@ example : (scanAll "var x = \"a${1}b\"; // c\nprint(x)\n;").map (·.kind) =
       .identifier, .leftParen, .identifier, .rightParen, .semiColon, .eof] := by decide +kernel
 example : (scanAll "var x = \"a${1}b\"; // c\nprint(x)\n;").map (·.line) =
     #[1, 1, 1, 1, 1, 1, 1, 2, 2, 2, 2, 3, 3] := by decide +kernel
-/- a newline swallowed by a bad escape is NOT counted: the upper bound of A3b is not always attained -/
+/- a newline swallowed by a bad escape IS counted since F51 (the error token keeps the line it was found on, what follows is on the
+next line); before that repair this example read (1, 1, 1) -/
 example : (scanAll "\"\\\n\"").map (fun t => (t.kind, t.line)) =
-    #[(.error, 1), (.error, 1), (.eof, 1)] := by decide +kernel
+    #[(.error, 1), (.error, 2), (.eof, 2)] := by decide +kernel
 
 /-! ## B. Compiler result dichotomy -/
 
